@@ -99,9 +99,10 @@ class QueryJudge:
                 # implementation != specification : classify
                 if emptydom and obs == model_obs and self.known('C02-F1'):
                     continue
-                if cfg_name == 'on' and self.use_c05 and cfg['nonuniform'] and \
-                        all(canon(o[1], case, self.ordered) == want for o in res['impl'].get('off', {'outs': []})['outs']
-                            if o[0] == 'rows') and 'off' in res['impl'] and self.known('C05-F1'):
+                off_name = cfg_name.replace('on', 'off', 1)
+                if cfg_name.startswith('on') and self.use_c05 and cfg['nonuniform'] and off_name in res['impl'] and \
+                        all(canon(o[1], case, self.ordered) == want for o in res['impl'][off_name]['outs']
+                            if o[0] == 'rows') and self.known('C05-F1'):
                     continue
                 self.violation(f'rows differ from the specification (caching {cfg_name}, evaluation {ev + 1})',
                                case, expected=want, observed=obs, model=model_obs,
